@@ -259,7 +259,12 @@ pub fn values_equal(a: &V, b: &V, depth: u32) -> Option<bool> {
             true
         }
         // ranges: structural; sound only while the program keeps <= 8 distinct ranges alive
-        (V::Range(x), V::Range(y)) => x.begin == y.begin && x.end == y.end,
+        (V::Range(x), V::Range(y)) => {
+            if !Rc::ptr_eq(x, y) {
+                RANGE_IDENTITY_OBSERVED.with(|f| f.set(true));
+            }
+            x.begin == y.begin && x.end == y.end
+        }
         (V::Closure(x), V::Closure(y)) => Rc::ptr_eq(x, y),
         (V::Native(x), V::Native(y)) => Rc::ptr_eq(x, y),
         (V::Bound(x), V::Bound(y)) => Rc::ptr_eq(x, y),
@@ -402,6 +407,13 @@ fn disp(v: &V, out: &mut String, visiting: &mut Vec<usize>) {
             IterKind::Str(_) => out.push_str("ObjStringIter instance"),
         },
     }
+}
+
+thread_local! {
+    /// set when two distinct range objects were compared (by `==`, inside tuples, or as map keys):
+    /// from then on the program's behaviour may depend on which ranges the interpreter's range cache
+    /// still holds, which the model does not reproduce
+    pub static RANGE_IDENTITY_OBSERVED: std::cell::Cell<bool> = std::cell::Cell::new(false);
 }
 
 /// hashable(v): number, string, bool, nil, class, range, tuple of hashables
